@@ -77,7 +77,7 @@ def run(ctx):
     ctx.saw_func(bds)
     cfg = cfg_of(bds)
     draws = [n for n, c in find_nodes(cfg, lambda q: isinstance(q, ast.Call) and call_name(q) == "from_random")]
-    g = _raises_under(cfg, lambda s: "self._dtype is None" in s and "not in self._dtype" in s)
+    g = _raises_under(cfg, lambda s: "self._dtype is None" in s and ("not in self._dtype" in s or "self._dtype.get(" in s or "self._dtype[" in s))
     dom = cfg.dominators()
     ctx.check("R13.1", f"{bds.key}::identity blocks raise without a dtype before drawing", bool(draws) and bool(g) and all(g[0].id in dom[d.id] for d in draws), None, bds)
     sus = SU.methods["draw_sample"]
@@ -355,3 +355,63 @@ _run_c13e = run
 def run(ctx):  # noqa: F811
     _run_c13e(ctx)
     r13_7(ctx, ctx.model)
+
+
+# ---------------------------------------------------------------------------------------------------------------- R13.9
+def r13_9(ctx, m):
+    """identity blocks of a block-diagonal covariance: the dtype table covers every domain key and an unknown dtype is refused"""
+    B = m.cls(OPS + "block_diagonal_operator", "BlockDiagonalOperator")
+    ctx.rule("R13.9", "BlockDiagonalOperator: the per-key sampling dtype table is built over the keys of the domain (missing blocks "
+                      "are the documented unity and the table is checked / looked up for every domain key), and draw_sample refuses "
+                      "an identity block whose dtype entry is None (tests the entry's value, not only its presence) before drawing "
+                      "white noise for it", floor=2)
+    init = B.methods["__init__"]
+    ctx.saw_func(init)
+    key = f"{init.key}::dtype table keyed by the domain's keys"
+    comps = [st for st in walk_no_nested(init.node) if isinstance(st, ast.Assign) and src(st.targets[0]) == "self._dtype" and isinstance(st.value, ast.DictComp)]
+    if not comps:
+        ctx.und("R13.9", key, "no dict comprehension assigned to self._dtype", init)
+    else:
+        it = src(comps[0].value.generators[0].iter)
+        dn, on = init.params()[1], init.params()[2]
+        if it in (f"{dn}.keys()", "self._domain.keys()", dn, "self._domain"):
+            ctx.ok("R13.9", key, f"iterates `{it}`", init, comps[0])
+        elif it.startswith(on):
+            ctx.bad("R13.9", key, f"iterates `{it}`: keys absent from the operator dict (documented: unity) are absent from the table, "
+                                  "which is then indexed with every domain key", init, comps[0])
+        else:
+            ctx.und("R13.9", key, f"iterates `{it}`", init, comps[0])
+    ds = B.methods["draw_sample"]
+    ctx.saw_func(ds)
+    cfg = cfg_of(ds)
+    key = f"{ds.key}::identity block with unknown dtype is refused before white noise is drawn"
+    draws = [n for n, c in find_nodes(cfg, lambda q: isinstance(q, ast.Call) and call_name(q) == "from_random")]
+    raises = [n for n in cfg.nodes if n.kind == "stmt" and isinstance(n.ast, ast.Raise)]
+    verdict, detail = None, "no refusal found"
+    from ..util import known_atoms
+    for r in raises:
+        atoms = [src(t) for t, p in known_atoms(cfg, r.id)]
+        tests = [n for n in cfg.nodes if n.kind == "test" and any(b == r.id or r.id in cfg.reachable(b, avoid=[n.id]) for b, lab in cfg.successors(n.id) if lab == "T")]
+        for t in tests:
+            s = src(t.ast)
+            if "self._dtype" not in s:
+                continue
+            value_test = any(isinstance(z, ast.Compare) and isinstance(z.ops[0], ast.Is) and isinstance(z.comparators[0], ast.Constant)
+                             and z.comparators[0].value is None and ("get(" in src(z.left) or isinstance(z.left, ast.Subscript))
+                             for z in ast.walk(t.ast))
+            presence_only = " not in self._dtype" in s and not value_test
+            detail = f"refusal under `{s}`"
+            if value_test:
+                verdict = True
+            elif presence_only and verdict is None:
+                verdict = False
+                detail += ": a present entry with value None passes and the block is drawn with the default dtype"
+    ctx.check("R13.9", key, verdict if draws else None, detail, ds)
+
+
+_run_c13f = run
+
+
+def run(ctx):  # noqa: F811
+    _run_c13f(ctx)
+    r13_9(ctx, ctx.model)
